@@ -26,6 +26,7 @@ import (
 	"com.tuntun.rangers/node/src/common"
 	middleware_pb "com.tuntun.rangers/node/src/middleware/pb"
 	"com.tuntun.rangers/node/src/middleware/types"
+	"com.tuntun.rangers/node/src/network"
 	"com.tuntun.rangers/node/src/utility"
 	"github.com/gogo/protobuf/proto"
 	"verif/harness/hx"
@@ -675,8 +676,28 @@ func doMM(o *hx.Out, m *types.Member) []byte {
 	return out
 }
 
+func ansEU(b []byte) string {
+	m, err := network.VerifC09UnMarshalMessage(b)
+	if err != nil {
+		return errClass(err)
+	}
+	if m == nil {
+		return "nil"
+	}
+	return "ok " + strconv.FormatUint(uint64(m.Code), 10) + " " + tokOpt(m.Body)
+}
+
+func ansFU(b []byte) string {
+	method, src, tgt, nonce, body := network.VerifC09UnloadMsg(b)
+	return tokOpt(method) + " " + strconv.FormatUint(src, 10) + " " + strconv.FormatUint(tgt, 10) + " " + strconv.FormatUint(nonce, 10) + " " + tokOpt(body)
+}
+
 func parseOp(kind string, b []byte) string {
 	switch kind {
+	case "eu":
+		return ansEU(b)
+	case "fu":
+		return ansFU(b)
 	case "mu":
 		return ansMU(b)
 	case "Gu":
@@ -781,6 +802,7 @@ var nested = map[string]map[uint64]string{
 	"h": {12: "x", 19: "y"},
 	"g": {1: "q"},
 	"G": {1: "g"},
+	"e": {},
 }
 
 var timeFields = map[string]map[uint64]bool{"h": {4: true, 7: true}, "q": {5: true}}
@@ -1451,6 +1473,63 @@ func corr(a map[string]string) {
 		})
 	}
 
+	// the p2p envelope (network/message.go, golang/protobuf reader) and the 28-byte frame header (network/conn.go)
+	{
+		eg := &gen{r: hx.NewRng(hx.SeedFromEnv() ^ 0xe17e)}
+		codes := []uint32{0, 1, 2, 3, 11, 12, 13, 14, 15, 16, 17, 18, 19, 20, 21, 22, 23, 127, 128, 1 << 16, 1<<32 - 1}
+		var valid [][]byte
+		for i := 0; i < 60*scale; i++ {
+			m := network.Message{Code: codes[eg.r.Intn(len(codes))], Body: eg.optBytes()}
+			if eg.r.Chance(1, 5) {
+				m.Code = uint32(eg.r.U64())
+			}
+			var eb []byte
+			out.Do("em "+strconv.FormatUint(uint64(m.Code), 10)+" "+tokOpt(m.Body), func() string {
+				b, err := network.VerifC09MarshalMessage(m)
+				if err != nil {
+					return errClass(err)
+				}
+				eb = b
+				return hx.Hex(b)
+			})
+			if eb != nil {
+				doParse(out, "eu", eb)
+				valid = append(valid, eb)
+			}
+		}
+		doParse(out, "eu", nil)
+		for x := 0; x < 256; x++ {
+			doParse(out, "eu", []byte{byte(x)})
+		}
+		// hand-made: Code absent, Code twice, Code as bytes, 64-bit Code, tag 0, tag 2^29, groups (matching, mismatching, nested,
+		// unterminated), stray end-group, reserved wire types, maximal varints
+		for _, h := range []string{"1200", "1203010203", "08011202aabb0802", "0a0101", "08ffffffffffffffffff01", "08ffffffffffffffffff02", "0008",
+			"8080808002", "f8ffffff0f00", "80808080100a", "0b0c", "0b14", "0b0b0c0c", "0b130c", "0b08010c0801", "0b", "0c", "0e00", "0f", "0d00000000", "0900",
+			"12ffffffff0f", "1201", "0801120100", "10011a0100", "0880808080808080808000", "08808080808080808080800000"} {
+			b, _ := hx.UnHex(h)
+			doParse(out, "eu", b)
+		}
+		for i := 0; i < 300*scale; i++ {
+			doParse(out, "eu", eg.mutate("e", valid[eg.r.Intn(len(valid))], 0))
+		}
+		for _, v := range lenFamily("e", valid[0], 0, func(n int) []byte { return eg.r.Bytes(n) }) {
+			doParse(out, "eu", v)
+		}
+		methods := [][]byte{{0x80, 0, 0, 1}, {0x80, 0, 0, 2}, {0x80, 0, 0, 3}, {0x80, 0, 0, 6}, {0x10, 0, 0, 0}, {}, {1}, {1, 2, 3, 4, 5, 6}, nil}
+		for i := 0; i < 60*scale; i++ {
+			m := methods[eg.r.Intn(len(methods))]
+			tgt, nonce, body := eg.u64(), eg.u64(), eg.r.Bytes(eg.r.Pick(0, 1, 27, 28, 31, 32, 33, 60))
+			var fb []byte
+			out.Do("fl "+hx.Hex(m)+" "+strconv.FormatUint(tgt, 10)+" "+strconv.FormatUint(nonce, 10)+" "+hx.Hex(body), func() string {
+				fb = network.VerifC09LoadMsg(m, eg.u64(), tgt, nonce, body)
+				return hx.Hex(fb)
+			})
+			doParse(out, "fu", fb)
+		}
+		for _, n := range []int{0, 1, 4, 12, 20, 27, 28, 29, 60} {
+			doParse(out, "fu", eg.r.Bytes(n))
+		}
+	}
 	// present-with-length-L family for every bytes/string field of one rich message of each kind (deterministic, runs early)
 	{
 		fg := &gen{r: hx.NewRng(hx.SeedFromEnv() ^ 0xf1e1d)}
@@ -1728,7 +1807,7 @@ func (s *searcher) checkParse(kind string, b []byte) {
 	s.evals++
 	res := hx.Guard(func() string { return parseOp(kind, b) })
 	s.dist[kind+":"+strings.SplitN(res, " ", 2)[0]] = true
-	name := map[string]string{"mu": "UnMarshalMember", "Gu": "PbToGroups", "hu": "UnMarshalBlockHeader", "tu": "UnMarshalTransaction", "su": "UnMarshalTransactions",
+	name := map[string]string{"eu": "network.unMarshalMessage", "fu": "baseConn.unloadMsg", "mu": "UnMarshalMember", "Gu": "PbToGroups", "hu": "UnMarshalBlockHeader", "tu": "UnMarshalTransaction", "su": "UnMarshalTransactions",
 		"bu": "UnMarshalBlock", "gu": "UnMarshalGroup"}[kind]
 	rp := map[string]string{"call": name, "bytes": hx.Hex(b), "observed": res}
 	switch {
@@ -1901,6 +1980,28 @@ func (s *searcher) run(g *gen, n int) {
 			s.add("group-roundtrip-"+strings.SplitN(res, " ", 2)[0], "producible group does not survive Marshal/UnMarshal: "+res,
 				map[string]string{"call": "MarshalGroup;UnMarshalGroup", "group": tokGroup(gr), "observed": res})
 		}
+		// --- envelope round trip and hostile envelopes
+		env := network.Message{Code: uint32(g.r.Pick(0, 1, 12, 255, 1<<32-1)), Body: g.optBytes()}
+		s.evals++
+		res = hx.Guard(func() string {
+			b, err := network.VerifC09MarshalMessage(env)
+			if err != nil {
+				return "marshal-failed"
+			}
+			m2, err := network.VerifC09UnMarshalMessage(b)
+			if err != nil || m2 == nil {
+				return "reparse-failed"
+			}
+			if m2.Code != env.Code || hx.Hex(m2.Body) != hx.Hex(env.Body) {
+				return "content " + strconv.FormatUint(uint64(env.Code), 10) + "/" + tokOpt(env.Body) + " -> " + strconv.FormatUint(uint64(m2.Code), 10) + "/" + tokOpt(m2.Body)
+			}
+			s.checkParse("eu", g.mutate("e", b, 0))
+			return "same"
+		})
+		if res != "same" {
+			s.add("envelope-roundtrip-"+strings.SplitN(res, " ", 2)[0], "p2p envelope does not survive marshalMessage/unMarshalMessage: "+res,
+				map[string]string{"call": "marshalMessage;unMarshalMessage", "code": strconv.FormatUint(uint64(env.Code), 10), "body": tokOpt(env.Body), "observed": res})
+		}
 		// --- member and group-slice round trips
 		mem := &types.Member{Id: g.r.Bytes(1 + g.r.Intn(33)), PubKey: g.r.Bytes(g.r.Intn(65))}
 		s.evals++
@@ -2015,7 +2116,7 @@ func search(a map[string]string) {
 		}
 	}
 	// the concrete inputs of the DESIGN leads
-	for _, l := range [][2]string{{"tu", "2801"}, {"hu", "-"}, {"gu", "0a0432003800"}, {"su", "0a022801"}} {
+	for _, l := range [][2]string{{"eu", "-"}, {"eu", "1200"}, {"eu", "120401020304"}, {"fu", "-"}, {"fu", "0102"}, {"tu", "2801"}, {"hu", "-"}, {"gu", "0a0432003800"}, {"su", "0a022801"}} {
 		b, _ := hx.UnHex(l[1])
 		s.checkParse(l[0], b)
 	}
@@ -2024,7 +2125,7 @@ func search(a map[string]string) {
 		b, _ := hx.UnHex(w)
 		s.parsedHeaderRoundtrip(b)
 	}
-	for _, k := range []string{"tu", "hu", "su", "bu", "gu", "mu", "Gu"} {
+	for _, k := range []string{"eu", "fu", "tu", "hu", "su", "bu", "gu", "mu", "Gu"} {
 		for x := 0; x < 256; x++ {
 			s.checkParse(k, []byte{byte(x)})
 		}
@@ -2069,6 +2170,7 @@ func search(a map[string]string) {
 
 func main() {
 	utility.VerifDisableNTP()
+	network.VerifC09InitLoggers()
 	types.InitSerialzation() // package logger must be non-nil before a panic counts (node start-up does this)
 	a := hx.Args()
 	if a["mode"] == "search" {
